@@ -33,6 +33,22 @@ DEREFS = ("Deref>::deref", "String::as_str", "AsRef<str>>::as_ref", "Borrow<str>
 STR_EQ = re.compile(r"PartialEq<.*str.*>>::eq$|PartialEq>::eq$|PartialEq<std::string::String>>::eq$|<impl str>::eq$")
 
 
+def is_str_eq(fn, t):
+    """an equality test between two texts: a call named eq whose arguments are string typed (whatever impl provides it)"""
+    name = t[1].get("def") or ""
+    if STR_EQ.search(name):
+        return True
+    if not re.search(r"(::|>)eq$", name) or len(t[2]) != 2:
+        return False
+    tys = []
+    for a in t[2]:
+        if a[0] in ("copy", "move"):
+            tys.append(a[1].get("ty") or fn["locals"][a[1]["l"]]["ty"] or "")
+        else:
+            tys.append(a[1].get("ty", ""))
+    return all(re.search(r"\bstr\b|\bString\b", ty) for ty in tys)
+
+
 def file_of(fn):
     return fn["span"].rsplit(":", 2)[0]
 
@@ -235,7 +251,7 @@ def run(ctx, chk):
         where = file_of(ui)
         for bi, t in M.calls_in(ui):
             name = t[1].get("def") or ""
-            if not STR_EQ.search(name):
+            if not is_str_eq(ui, t):
                 continue
             s = None
             for a in t[2]:
